@@ -24,6 +24,12 @@ pub struct Case {
     pub isn: u16,
     pub rnd: Vec<u16>,
     pub evs: Vec<Step>,
+    /// 576: no size probing (the link is the protocol minimum); larger: probes are cut early in the connection
+    #[serde(default = "default_mtu")]
+    pub link_mtu: u16,
+}
+fn default_mtu() -> u16 {
+    576
 }
 
 pub const N_STARTS: u8 = 8;
@@ -82,7 +88,7 @@ fn build(case: &Case) -> SpCase {
     steps.extend(case.evs.iter().cloned());
     steps.push(Step::Adv(50));
     SpCase {
-        sock: SockCfg { link_mtu: 576, wait_lastack: case.wait_lastack, max_retx: case.max_retx.max(1), rnd: case.rnd.clone(), ..SockCfg::default() },
+        sock: SockCfg { link_mtu: case.link_mtu, wait_lastack: case.wait_lastack, max_retx: case.max_retx.max(1), rnd: case.rnd.clone(), ..SockCfg::default() },
         incoming: case.incoming || case.start == 0,
         peer_isn: case.isn,
         conn_id: 4000,
@@ -300,7 +306,13 @@ pub fn oracle(case: &Case, spc: &SpCase, res: &SpResult) -> (Option<(String, Str
             if chain.len() >= 3 {
                 let g1 = chain[chain.len() - 2] - chain[chain.len() - 3];
                 let g2 = chain[chain.len() - 1] - chain[chain.len() - 2];
-                if g2.abs_diff((2 * g1).min(60_000_000)) > 2_000 && chain.len() > 3 {
+                // (by design a timeout attributed to an outstanding size probe does not back off — "presumably lost
+                // due to its size, not congestion" — and the FIN behind it is resent along with it: no doubling is
+                // demanded while the oldest unacknowledged data packet is an oversize probe, i.e. larger than the first
+                // data packet of the connection)
+                let base_len = own_data.first().map(|d| d.pkt.as_ref().unwrap().payload.len()).unwrap_or(0);
+                let probe_rides = own_data.iter().any(|d| d.t_us == f.t_us && d.pkt.as_ref().unwrap().payload.len() > base_len.max(528));
+                if g2.abs_diff((2 * g1).min(60_000_000)) > 2_000 && chain.len() > 3 && !probe_rides {
                     viol!("fin-backoff", "FIN retransmissions spaced {} us then {} us with nothing delivered in between (expected doubling)", g1, g2);
                 }
                 labels.insert("fin_retransmitted_twice");
@@ -501,7 +513,7 @@ impl CheckDef for Sp {
         let alpha = alphabet();
         let n = alpha.len();
         (0u8..N_STARTS, any::<bool>(), any::<bool>(), 1u8..6, prop_oneof![any::<u16>(), (65500u32..65536).prop_map(|x| x as u16)], prop::collection::vec(any::<u16>(), 3), prop::collection::vec((0..n).prop_map(move |i| alpha[i].clone()), 1..tier.pick(12, 20)))
-            .prop_map(|(start, incoming, wait_lastack, max_retx, isn, rnd, evs)| Case { start, incoming, wait_lastack, max_retx, isn, rnd, evs })
+            .prop_map(|(start, incoming, wait_lastack, max_retx, isn, rnd, evs)| Case { start, incoming, wait_lastack, max_retx, isn, link_mtu: if rnd[0] % 2 == 0 { 576 } else { 1500 }, rnd, evs })
             .boxed()
     }
     fn run(case: &Case, trace: bool) -> Outcome {
@@ -528,14 +540,15 @@ fn exhaustive(ctx: &mut Ctx, depth: usize) {
     let n = alpha.len();
     let mut total = 0u64;
     for d in 1..=depth { total += (n as u64).pow(d as u32); }
-    let total = total * N_STARTS as u64 * 2;
+    let total = total * N_STARTS as u64 * 2 * 2;
     let results: Vec<(u64, BTreeSet<u64>, std::collections::BTreeMap<&'static str, u64>, Option<(Case, String, String)>)> = std::thread::scope(|s| {
         let alpha = &alpha;
         let hs: Vec<_> = (0..SHARDS).map(|sh| s.spawn(move || {
             install_panic_hook();
             let mut evals = 0u64; let mut fps = BTreeSet::new(); let mut labels = std::collections::BTreeMap::new(); let mut fail = None;
             let mut idx = 0u64;
-            for start in 0..N_STARTS {
+            // both link settings: without size probing (576) and with it (1500: a probe follows the first ack)
+            for (start, link_mtu) in (0..N_STARTS).flat_map(|s| [(s, 576u16), (s, 1500u16)]) {
                 for incoming in [false, true] {
                     for d in 1..=depth {
                         let count = n.pow(d as u32);
@@ -544,7 +557,7 @@ fn exhaustive(ctx: &mut Ctx, depth: usize) {
                             if idx % SHARDS as u64 != sh as u64 { continue; }
                             let mut c = code; let mut evs = vec![];
                             for _ in 0..d { evs.push(alpha[c % n].clone()); c /= n; }
-                            let case = Case { start, incoming, wait_lastack: true, max_retx: 3, isn: 65534, rnd: vec![100, 65533, 9000], evs };
+                            let case = Case { start, incoming, wait_lastack: true, max_retx: 3, isn: 65534, rnd: vec![100, 65533, 9000], evs, link_mtu };
                             let out = run_guarded::<Sp>(&case, false);
                             evals += 1;
                             match out.verdict {
